@@ -13,6 +13,15 @@
 //!                                               observed (f64::to_bits, Debug / Display strings, shapes, iteration
 //!                                               orders, tape positions, error values) and n the number of items
 //!                                               hashed.  Digests are compared ACROSS executions by tools/props/c18.py.
+//!   (18 3 kind ...)                             FORMATTED OUTPUT compared with Model/Format.v, result (0 (char codes)):
+//!       (18 3 0 el prec rows cols (v...))         Matrix / MatrixView (owned, borrowed, full range) Display
+//!       (18 3 1 el prec ((name len)...) (v...))   Tensor / TensorView (owned, borrowed) Display, D <= 3
+//!       (18 3 2 el prec ((name len)...) (v...) swap)  TensorAccess (index_by / index_by on a view) Display, D <= 2
+//!       (18 3 3 el prec v)                        Record / Trace Display (i64: Record constant, variable, Trace; Tok: Trace through its public fields)
+//!       (18 3 4 prec n (l...) (d...))             LDLTDecomposition<i64>::from_unchecked Display
+//!       (18 3 5 prec rows cols (v...))            RecordMatrix<i64> / RecordTensor<i64, 2> Display -> (0 (tm tt))
+//!     el: 0 = i64, 1 = Tok(i64) (Display prints "<v>p<k>" under precision k); prec: () = "{}", (k) = "{:.k}";
+//!     every text is produced twice and through every listed form; all must agree (else (-8 code)).
 use crate::guarded;
 use crate::num::{Enc, Fp, Rat};
 use crate::sx::*;
@@ -50,8 +59,203 @@ pub fn run(args: &[Sx]) -> Sx {
             }
             digest_case(w, seed as u64, pre, thread, allocseed as u64)
         }
+        Some(3) if args.len() >= 2 => format_case(&args[1..]).unwrap_or_else(bad_case),
         _ => bad_case(),
     }
+}
+
+// ------------------------------------------------------------------ (18 3 ..) formatted output vs Model/Format.v
+
+/// exact element type whose Display shows the precision it was given
+#[derive(Clone, Debug, PartialEq)]
+struct Tok(i64);
+impl Primitive for Tok {}
+impl std::fmt::Display for Tok {
+    fn fmt(&self, f: &mut std::fmt::Formatter) -> std::fmt::Result {
+        match f.precision() {
+            Some(p) => write!(f, "{}p{}", self.0, p),
+            None => write!(f, "{}", self.0),
+        }
+    }
+}
+
+fn show<X: std::fmt::Display>(x: &X, prec: Option<usize>) -> String {
+    let a = match prec {
+        Some(p) => format!("{:.*}", p, x),
+        None => format!("{}", x),
+    };
+    // a second rendering through another entry point of std::fmt
+    let b = match prec {
+        Some(p) => format!("{:.1$}", x, p),
+        None => x.to_string(),
+    };
+    if a == b {
+        a
+    } else {
+        format!("\u{1}DIFFERS\u{1}{}\u{1}{}", a, b)
+    }
+}
+
+fn text_sx(s: &str) -> Sx {
+    l(s.bytes().map(|b| z(b as u64)).collect())
+}
+
+/// all forms must give the same text
+fn agree(forms: Vec<String>, code: i64) -> Result<String, Sx> {
+    if forms.iter().any(|f| f != &forms[0] || f.starts_with('\u{1}')) {
+        return Err(inconsistent(code));
+    }
+    Ok(forms.into_iter().next().unwrap())
+}
+
+fn dprec(s: &Sx) -> Option<Option<usize>> {
+    match s.option()? {
+        None => Some(None),
+        Some(k) => Some(Some(k.usize()?)),
+    }
+}
+
+fn fmt_matrix<T: Clone + std::fmt::Display>(rows: usize, cols: usize, data: Vec<T>, prec: Option<usize>) -> Sx {
+    let m = Matrix::from_flat_row_major((rows, cols), data);
+    let forms = vec![
+        show(&m, prec),
+        show(&easy_ml::matrices::views::MatrixView::from(&m), prec),
+        show(&m.range(0..rows, 0..cols), prec),
+        show(&easy_ml::matrices::views::MatrixView::from(m.clone()), prec),
+    ];
+    match agree(forms, 1830) {
+        Ok(t) => ok(text_sx(&t)),
+        Err(e) => e,
+    }
+}
+
+fn fmt_tensor<const D: usize>(shape: &[(usize, usize)], data: Vec<impl Clone + std::fmt::Display>, prec: Option<usize>) -> Sx {
+    let t = Tensor::from(shape_arr::<D>(shape), data);
+    let forms = vec![show(&t, prec), show(&TensorView::from(&t), prec), show(&TensorView::from(t.clone()), prec)];
+    match agree(forms, 1831) {
+        Ok(t) => ok(text_sx(&t)),
+        Err(e) => e,
+    }
+}
+
+fn fmt_access<const D: usize>(shape: &[(usize, usize)], data: Vec<impl Clone + std::fmt::Display>, prec: Option<usize>, swap: bool) -> Sx {
+    let t = Tensor::from(shape_arr::<D>(shape), data);
+    let mut order: Vec<usize> = shape.iter().map(|p| p.0).collect();
+    if swap && D == 2 {
+        order.swap(0, 1);
+    }
+    let names = names_arr::<D>(&order);
+    let forms = vec![
+        show(&t.index_by(names), prec),
+        show(&TensorView::from(&t).index_by(names), prec),
+        show(&easy_ml::tensors::indexing::TensorAccess::from(&t, names), prec),
+    ];
+    match agree(forms, 1832) {
+        Ok(t) => ok(text_sx(&t)),
+        Err(e) => e,
+    }
+}
+
+fn valid_shape(shape: &[(usize, usize)], len: usize) -> bool {
+    shape.iter().all(|p| p.1 > 0)
+        && shape.iter().enumerate().all(|(i, p)| shape[..i].iter().all(|q| q.0 != p.0))
+        && shape.iter().map(|p| p.1).product::<usize>() == len
+}
+
+fn format_case(a: &[Sx]) -> Option<Sx> {
+    let kind = a[0].i64()?;
+    Some(match (kind, a.len()) {
+        (0, 6) => {
+            let (el, prec, rows, cols, data) = (a[1].i64()?, dprec(&a[2])?, a[3].usize()?, a[4].usize()?, a[5].i64s()?);
+            if rows == 0 || cols == 0 || data.len() != rows * cols {
+                return None;
+            }
+            match el {
+                0 => fmt_matrix(rows, cols, data, prec),
+                1 => fmt_matrix(rows, cols, data.into_iter().map(Tok).collect(), prec),
+                _ => return None,
+            }
+        }
+        (1, 5) => {
+            let (el, prec, shape, data) = (a[1].i64()?, dprec(&a[2])?, a[3].pairs_usize()?, a[4].i64s()?);
+            if shape.len() > 3 || !valid_shape(&shape, data.len()) {
+                return None;
+            }
+            match el {
+                0 => crate::with_d!(shape.len(), fmt_tensor(&shape, data, prec)),
+                1 => {
+                    let data: Vec<Tok> = data.into_iter().map(Tok).collect();
+                    crate::with_d!(shape.len(), fmt_tensor(&shape, data, prec))
+                }
+                _ => return None,
+            }
+        }
+        (2, 6) => {
+            let (el, prec, shape, data, swap) = (a[1].i64()?, dprec(&a[2])?, a[3].pairs_usize()?, a[4].i64s()?, a[5].bool()?);
+            if shape.len() > 2 || !valid_shape(&shape, data.len()) {
+                return None;
+            }
+            match el {
+                0 => crate::with_d!(shape.len(), fmt_access(&shape, data, prec, swap)),
+                1 => {
+                    let data: Vec<Tok> = data.into_iter().map(Tok).collect();
+                    crate::with_d!(shape.len(), fmt_access(&shape, data, prec, swap))
+                }
+                _ => return None,
+            }
+        }
+        (3, 4) => {
+            let (el, prec, v) = (a[1].i64()?, dprec(&a[2])?, a[3].i64()?);
+            let list = WengertList::new();
+            let forms = match el {
+                0 => vec![
+                    show(&Record::constant(v), prec),
+                    show(&Record::variable(v, &list), prec),
+                    show(&Trace::constant(v), prec),
+                    show(&Trace::variable(v), prec),
+                ],
+                1 => {
+                    // Tok is Primitive but not Numeric: only a Trace can be built (through its public fields)
+                    vec![show(&Trace { number: Tok(v), derivative: Tok(1) }, prec), show(&Trace { number: Tok(v), derivative: Tok(v ^ 5) }, prec)]
+                }
+                _ => return None,
+            };
+            match agree(forms, 1833) {
+                Ok(t) => ok(text_sx(&t)),
+                Err(e) => e,
+            }
+        }
+        (4, 5) => {
+            let (prec, n, lm, dm) = (dprec(&a[1])?, a[2].usize()?, a[3].i64s()?, a[4].i64s()?);
+            if n == 0 || lm.len() != n * n || dm.len() != n * n {
+                return None;
+            }
+            let d = linear_algebra::LDLTDecomposition::from_unchecked(
+                Matrix::from_flat_row_major((n, n), lm),
+                Matrix::from_flat_row_major((n, n), dm),
+            );
+            ok(text_sx(&show(&d, prec)))
+        }
+        (5, 5) => {
+            let (prec, rows, cols, data) = (dprec(&a[1])?, a[2].usize()?, a[3].usize()?, a[4].i64s()?);
+            if rows == 0 || cols == 0 || data.len() != rows * cols {
+                return None;
+            }
+            let list = WengertList::new();
+            let m = Matrix::from_flat_row_major((rows, cols), data.clone());
+            let tm = match agree(vec![show(&RecordMatrix::constants(m.clone()), prec), show(&RecordMatrix::variables(&list, m), prec)], 1834) {
+                Ok(t) => t,
+                Err(e) => return Some(e),
+            };
+            let t = Tensor::from([(dim(0), rows), (dim(1), cols)], data);
+            let tt = match agree(vec![show(&RecordTensor::constants(t.clone()), prec), show(&RecordTensor::variables(&list, t), prec)], 1835) {
+                Ok(t) => t,
+                Err(e) => return Some(e),
+            };
+            ok(l(vec![text_sx(&tm), text_sx(&tt)]))
+        }
+        _ => return None,
+    })
 }
 
 // ------------------------------------------------------------------ (18 1 ..) the machine
@@ -331,8 +535,38 @@ const WORKLOADS: &[Workload] = &[
     w_distributions,
     w_errors_and_text,
     w_statistics,
+    w_format_tensors,
+    w_format_matrices,
+    w_format_records,
+    w_format_errors,
+    w_panic_messages,
+    w_after_caught_panics,
 ];
-const PRIOR_CALLS: usize = 8;
+const PRIOR_CALLS: usize = 13;
+
+/// the panic MESSAGE of a failing call (None when it does not panic): error text naming shapes,
+/// dimensions and indexes is an "error value / formatted output" of the call
+fn panic_msg<X>(f: impl FnOnce() -> X) -> Option<String> {
+    match std::panic::catch_unwind(std::panic::AssertUnwindSafe(f)) {
+        Ok(_) => None,
+        Err(p) => Some(if let Some(s) = p.downcast_ref::<String>() {
+            s.clone()
+        } else if let Some(s) = p.downcast_ref::<&str>() {
+            s.to_string()
+        } else {
+            "<non-string payload>".to_string()
+        }),
+    }
+}
+
+/// a square matrix of records in which the element at `at` lives on ANOTHER tape: the determinant's
+/// element arithmetic panics part way through the permutations; the caller catches the panic
+fn cross_tape_determinant(n: usize, at: (usize, usize), salt: u64) -> Option<String> {
+    let mut r = Rng(salt ^ 0x5151);
+    let (a, b) = (WengertList::new(), WengertList::new());
+    let m = Matrix::from_fn((n, n), |(i, j)| if (i, j) == at { Record::variable(r.val(), &b) } else { Record::variable(r.val(), &a) });
+    panic_msg(|| linear_algebra::determinant::<Record<f64>>(&m).map(|d| d.number))
+}
 
 /// unrelated library calls whose results are thrown away
 fn prior_call(id: usize, salt: u64) {
@@ -372,11 +606,39 @@ fn prior_call(id: usize, salt: u64) {
             let m = Matrix::from_fn((3, 3), |(i, j)| Rat::int((i * 3 + j) as i64 + if i == j { 5 } else { 0 }));
             black_box(linear_algebra::determinant::<Rat>(&m));
         }
-        _ => {
+        7 => {
             let x = Trace::variable(r.val());
             black_box((x * x).exp().derivative);
             let big: Vec<Vec<f64>> = (0..9).map(|k| vec![k as f64; 17 * k + 1]).collect();
             black_box(big);
+        }
+        // ---- unrelated calls that FAIL and whose panic the caller catches
+        8 => {
+            black_box(cross_tape_determinant(2, (0, 1), salt));
+        }
+        9 => {
+            let at = [(0, 1), (1, 0), (2, 1), (1, 2), (0, 2)][(salt % 5) as usize];
+            black_box(cross_tape_determinant(3, at, salt));
+        }
+        10 => {
+            let at = ((salt % 4) as usize, ((salt / 4) % 4) as usize);
+            black_box(cross_tape_determinant(4, at, salt));
+        }
+        11 => {
+            let t = Tensor::from([("a", 2), ("b", 3)], r.vals(6));
+            black_box(panic_msg(|| t.reverse(&["x", "y", "z"]).shape()));
+            black_box(panic_msg(|| t.index_by(["q", "a"]).shape()));
+            black_box(panic_msg(|| (&t + &t.transpose(["b", "a"])).shape()));
+            black_box(panic_msg(|| Matrix::from(vec![vec![1.0, 2.0], vec![3.0]])));
+        }
+        _ => {
+            // a record computation that panics in the middle (cross-tape), then an inverse of exact numbers
+            let (a, b) = (WengertList::new(), WengertList::new());
+            let (x, y) = (Record::variable(r.val(), &a), Record::variable(r.val(), &b));
+            black_box(panic_msg(|| (x * x + y).number));
+            let n = 2 + (salt % 3) as usize;
+            let m = Matrix::from_fn((n, n), |(i, j)| if (i, j) == (0, n - 1) { y } else { x });
+            black_box(panic_msg(|| linear_algebra::inverse::<Record<f64>>(&m).map(|d| d.size())));
         }
     }
 }
@@ -842,4 +1104,321 @@ fn w_statistics(r: &mut Rng, h: &mut H) {
     let t = Tensor::from_fn([("s", n), ("f", 2)], |[i, j]| data[i] - j as f64);
     h.fs(t.covariance("f").iter());
     h.fs(linear_algebra::covariance::<f64, _, _>(&t, "s").iter().take(9));
+}
+
+// ---- formatted output: every Display / Debug of the crate, every format form
+
+fn all_forms<X: std::fmt::Display + Debug>(h: &mut H, x: &X) {
+    h.s(&format!("{}", x));
+    h.s(&format!("{:.3}", x));
+    h.s(&format!("{:.0}", x));
+    h.s(&format!("{:?}", x));
+    h.s(&format!("{:#?}", x));
+    h.s(&x.to_string());
+}
+
+fn disp_forms<X: std::fmt::Display>(h: &mut H, x: &X) {
+    h.s(&format!("{}", x));
+    h.s(&format!("{:.3}", x));
+    h.s(&format!("{:12.1}", x));
+}
+
+fn w_format_tensors(r: &mut Rng, h: &mut H) {
+    let len = |r: &mut Rng| 1 + (r.next() % 3) as usize;
+    let t0 = Tensor::from_scalar(r.val());
+    all_forms(h, &t0);
+    let t1 = Tensor::from([("x", 4)], r.vals(4));
+    all_forms(h, &t1);
+    let (a, b) = (len(r), len(r));
+    let t2 = Tensor::from([("r", a), ("c", b)], r.vals(a * b));
+    all_forms(h, &t2);
+    let c = len(r);
+    let t3 = Tensor::from([("b", c), ("r", a), ("c", b)], r.vals(a * b * c));
+    all_forms(h, &t3);
+    let t4 = Tensor::from([("a", 2), ("b", c), ("r", a), ("c", b)], r.vals(2 * a * b * c));
+    all_forms(h, &t4);
+    let t5 = Tensor::from([("z", 2), ("a", 1), ("b", c), ("r", a), ("c", 2)], r.vals(4 * a * c));
+    all_forms(h, &t5);
+    let t6 = Tensor::from([("u", 2), ("z", 2), ("a", 1), ("b", 2), ("r", 1), ("c", 2)], r.vals(16));
+    all_forms(h, &t6);
+    // views: TensorView Display / Debug over every adaptor
+    disp_forms(h, &TensorView::from(&t3));
+    h.dbg(&TensorView::from(&t3));
+    disp_forms(h, &t3.range([("r", 0..1)]).unwrap());
+    disp_forms(h, &t3.mask([("c", 0..1)]).map(|v| v.shape()).is_ok());
+    disp_forms(h, &t3.reverse(&["b", "c"]));
+    disp_forms(h, &t3.select([("b", 0)]));
+    disp_forms(h, &t2.expand([(1, "e")]));
+    disp_forms(h, &t2.rename_view(["p", "q"]));
+    disp_forms(h, &t2.map(|x| x * 2.0));
+    // accesses and transposes: the "Data Layout" line
+    all_forms(h, &t3.index_by(["c", "b", "r"]));
+    all_forms(h, &t4.index_by(["c", "a", "r", "b"]));
+    disp_forms(h, &t3.transpose_view(["r", "c", "b"]));
+    disp_forms(h, &t3.transpose_view(["r", "c", "b"]).source());
+    disp_forms(h, &t3.reverse(&["b"]).index_by(["r", "b", "c"]));
+    disp_forms(h, &t1.index_by(["x"]));
+    disp_forms(h, &t0.index_by([]));
+    // exact and textual element types
+    let ti = Tensor::from([("r", 2), ("c", 3)], (0..6).map(|k| r.small() * 1000 + k).collect());
+    all_forms(h, &ti);
+    let ts = Tensor::from([("r", 2), ("c", 2)], vec!["alpha", "be ta", "ga,mma", "de\nlta"]);
+    all_forms(h, &ts);
+    h.dbg(&Tensor::from([("k", 3)], (0..3).map(|_| Fp::new(r.small() as i128)).collect()));
+    h.s(&format!("{:#?}", Tensor::from([("k", 2)], vec![Rat::int(r.small()), Rat::int(7)])));
+}
+
+fn w_format_matrices(r: &mut Rng, h: &mut H) {
+    let (rows, cols) = (1 + (r.next() % 4) as usize, 1 + (r.next() % 4) as usize);
+    let m = Matrix::from_fn((rows, cols), |_| r.val());
+    all_forms(h, &m);
+    all_forms(h, &easy_ml::matrices::views::MatrixView::from(&m));
+    disp_forms(h, &m.range(0..1, 0..cols));
+    disp_forms(h, &m.reverse(Reverse { rows: true, columns: true }));
+    disp_forms(h, &m.transpose());
+    disp_forms(h, &Matrix::from_scalar(r.val()));
+    disp_forms(h, &Matrix::column(r.vals(3)));
+    disp_forms(h, &Matrix::row(r.vals(3)));
+    let mi = Matrix::from_fn((2, 3), |(i, j)| r.small() * 100 + (i * 3 + j) as i64);
+    all_forms(h, &mi);
+    let mut big = Matrix::from_fn((4, 4), |_| r.val());
+    {
+        let q = big.partition_quadrants(1 + (r.next() % 3) as usize, 1 + (r.next() % 3) as usize);
+        disp_forms(h, &q);
+        h.dbg(&q);
+    }
+    let n = 2 + (r.next() % 3) as usize;
+    let p = spd(r, n);
+    if let Some(d) = linear_algebra::ldlt_decomposition::<f64>(&p) {
+        all_forms(h, &d);
+    }
+    let rect = Matrix::from_fn((n + 1, n), |_| r.val());
+    if let Some(q) = linear_algebra::qr_decomposition::<f64>(&rect) {
+        all_forms(h, &q);
+    }
+    let pt = p.clone().into_tensor("r", "c").unwrap();
+    if let Some(d) = linear_algebra::ldlt_decomposition_tensor::<f64, _, _>(&pt) {
+        all_forms(h, &d);
+    }
+    if let Some(q) = linear_algebra::qr_decomposition_tensor::<f64, _, _>(&pt) {
+        all_forms(h, &q);
+    }
+    h.dbg(&linear_algebra::cholesky_decomposition::<f64>(&p));
+    h.dbg(&Gaussian::new(r.val(), 1.0 + r.unit()));
+    h.s(&format!("{:#?}", MultivariateGaussian::new(Matrix::column(r.vals(2)), spd(r, 2))));
+}
+
+fn w_format_records(r: &mut Rng, h: &mut H) {
+    let list = WengertList::new();
+    let x = Record::variable(r.val(), &list);
+    let y = Record::variable(r.val(), &list);
+    let z2 = (x * y + x.sin()) / (y.exp() + 1.5);
+    all_forms(h, &x);
+    all_forms(h, &z2);
+    all_forms(h, &Record::constant(r.val()));
+    all_forms(h, &Trace::variable(r.val()));
+    all_forms(h, &(Trace::variable(r.val()) * Trace::constant(r.val())).exp());
+    // the tape itself (Debug shows its operations) and derivative sets
+    h.dbg(&list);
+    h.s(&format!("{:#?}", list));
+    let d = z2.derivatives();
+    h.dbg(&d);
+    h.s(&format!("{:#?}", d));
+    let rt = RecordTensor::variables(&list, Tensor::from([("r", 2), ("c", 2)], r.vals(4)));
+    all_forms(h, &rt);
+    let rt2 = rt.unary(|v| v * v, |v| 2.0 * v);
+    all_forms(h, &rt2);
+    all_forms(h, &RecordTensor::constants(Tensor::from([("k", 3)], r.vals(3))));
+    let rm = RecordMatrix::variables(&list, Matrix::from_fn((2, 2), |_| r.val()));
+    all_forms(h, &rm);
+    all_forms(h, &(&rm * &rm));
+    all_forms(h, &RecordMatrix::constants(Matrix::from_fn((1, 3), |_| r.val())));
+    for rec in rt2.iter_as_records() {
+        all_forms(h, &rec);
+    }
+    let ri = Record::variable(r.small(), &WengertList::new()).number;
+    h.dbg(&ri);
+    list.clear();
+    h.dbg(&list);
+}
+
+fn w_format_errors(r: &mut Rng, h: &mut H) {
+    use easy_ml::tensors::indexing::TensorAccess;
+    use easy_ml::tensors::views::TensorRange;
+    let k = 1 + (r.next() % 4) as usize;
+    let t = Tensor::from([("a", 2), ("b", 3)], r.vals(6));
+    // tensors::InvalidShapeError
+    if let Err(e) = Tensor::<f64, 2>::try_from([("a", k), ("a", 3)], vec![0.0; 3 * k]) {
+        all_forms(h, &e);
+    }
+    if let Err(e) = Tensor::<f64, 3>::try_from([("a", k), ("b", 0), ("c", 2)], vec![]) {
+        all_forms(h, &e);
+    }
+    if let Err(e) = Tensor::<f64, 1>::try_from([("a", k)], vec![1.0; k + 1]) {
+        all_forms(h, &e);
+    }
+    // indexing::InvalidDimensionsError
+    if let Err(e) = TensorAccess::try_from(&t, ["b", "b"]) {
+        all_forms(h, &e);
+    }
+    if let Err(e) = TensorAccess::try_from(&t, ["b", "zz"]) {
+        all_forms(h, &e);
+    }
+    // IndexRangeValidationError (both variants) and the strict one (all three)
+    if let Err(e) = t.range([("a", 5..9)]) {
+        all_forms(h, &e);
+    }
+    if let Err(e) = t.range([("a", 0..1), ("a", 0..1)]) {
+        all_forms(h, &e);
+    }
+    if let Err(e) = t.range([("q", 0..1)]) {
+        all_forms(h, &e);
+    }
+    if let Err(e) = t.mask([("a", 0..2)]) {
+        all_forms(h, &e);
+    }
+    if let Err(e) = TensorRange::from_strict(&t, [("b", 1..(3 + k))]) {
+        all_forms(h, &e);
+    }
+    if let Err(e) = TensorRange::from_strict(&t, [("b", 1..1)]) {
+        all_forms(h, &e);
+    }
+    if let Err(e) = TensorRange::from_strict(&t, [("b", 0..1), ("b", 0..1)]) {
+        all_forms(h, &e);
+    }
+    if let Err(e) = TensorRange::from_all_strict(&t, [Some(0..k), Some(1..9)]) {
+        all_forms(h, &e);
+    }
+    // ScalarConversionError
+    if let Err(e) = Matrix::from_fn((2, 2), |_| r.val()).try_into_scalar() {
+        all_forms(h, &e);
+    }
+    // matrix -> tensor with equal names
+    if let Err(e) = Matrix::from_fn((2, k), |_| r.val()).into_tensor("s", "s") {
+        all_forms(h, &e);
+    }
+    // record iterators
+    let (l1, l2) = (WengertList::new(), WengertList::new());
+    all_forms(h, &InvalidRecordIteratorError::<f64, 1>::Empty);
+    if let Err(e) = RecordTensor::<f64, _, 1>::from_iter([("x", 3)], vec![Record::variable(r.val(), &l1)]) {
+        all_forms(h, &e);
+    }
+    if let Err(e) = RecordTensor::<f64, _, 1>::from_iter([("x", 2)], vec![Record::variable(r.val(), &l1), Record::variable(r.val(), &l2)]) {
+        all_forms(h, &e);
+        if let InvalidRecordIteratorError::InconsistentHistory(ih) = &e {
+            all_forms(h, ih);
+        }
+    }
+    if let Err(e) = RecordTensor::<f64, _, 1>::from_iter([("x", 2)], vec![Record::constant(r.val()), Record::variable(r.val(), &l2)]) {
+        all_forms(h, &e);
+    }
+    if let Err(e) = RecordMatrix::<f64, _>::from_iter((2, 2), vec![Record::variable(r.val(), &l1); 3]) {
+        all_forms(h, &e);
+    }
+    // MultivariateGaussianError (both variants)
+    use easy_ml::distributions::MultivariateGaussianTensor;
+    if let Err(e) = MultivariateGaussianTensor::new(Tensor::from([("m", 2)], r.vals(2)), Tensor::from([("r", 2), ("c", 3)], r.vals(6))) {
+        all_forms(h, &*e);
+    }
+    if let Err(e) = MultivariateGaussianTensor::new(Tensor::from([("m", 3)], r.vals(3)), Tensor::from([("r", 2), ("c", 2)], r.vals(4))) {
+        all_forms(h, &*e);
+    }
+}
+
+fn w_panic_messages(r: &mut Rng, h: &mut H) {
+    let k = 2 + (r.next() % 3) as usize;
+    let t = Tensor::from([("a", 2), ("b", k)], r.vals(2 * k));
+    let u = Tensor::from([("b", k), ("c", 2)], r.vals(2 * k));
+    let m = Matrix::from_fn((2, k), |_| r.val());
+    let mut msgs: Vec<Option<String>> = vec![];
+    // constructors
+    msgs.push(panic_msg(|| Tensor::from([("a", 2), ("a", k)], vec![0.0; 2 * k])));
+    msgs.push(panic_msg(|| Tensor::from([("a", 2), ("b", k)], vec![0.0; k])));
+    msgs.push(panic_msg(|| Tensor::from([("a", 0), ("b", k)], Vec::<f64>::new())));
+    msgs.push(panic_msg(|| Matrix::from(vec![vec![1.0; k], vec![2.0; k + 1]])));
+    msgs.push(panic_msg(|| Matrix::from_flat_row_major((2, k), vec![0.0; k])));
+    // names: one, two and three invalid names, duplicates
+    msgs.push(panic_msg(|| t.index_by(["b", "q"]).shape()));
+    msgs.push(panic_msg(|| t.index_by(["p", "q"]).shape()));
+    msgs.push(panic_msg(|| t.index_by(["b", "b"]).shape()));
+    msgs.push(panic_msg(|| t.transpose(["q", "a"]).shape()));
+    msgs.push(panic_msg(|| t.reverse(&["q"]).shape()));
+    msgs.push(panic_msg(|| t.reverse(&["x", "y"]).shape()));
+    msgs.push(panic_msg(|| t.reverse(&["z", "y", "x", "w", "v"]).shape()));
+    msgs.push(panic_msg(|| t.reverse(&["a", "zz", "b", "yy", "xx"]).shape()));
+    msgs.push(panic_msg(|| t.reverse(&["a", "a"]).shape()));
+    msgs.push(panic_msg(|| TensorView::from(&t).reverse(&["m", "n", "o"]).shape()));
+    msgs.push(panic_msg(|| t.select([("q", 0)]).shape()));
+    msgs.push(panic_msg(|| t.select([("a", 7)]).shape()));
+    msgs.push(panic_msg(|| t.expand([(5, "e")]).shape()));
+    msgs.push(panic_msg(|| t.expand([(0, "a")]).shape()));
+    msgs.push(panic_msg(|| t.rename_view(["a", "a"]).shape()));
+    msgs.push(panic_msg(|| t.index_by(["a", "b"]).get([2, k])));
+    msgs.push(panic_msg(|| t.covariance("q").shape()));
+    // arithmetic with mismatched operands
+    msgs.push(panic_msg(|| (&t + &u).shape()));
+    msgs.push(panic_msg(|| (&t * &t).shape()));
+    msgs.push(panic_msg(|| t.elementwise(&u, |x, y| x + y).shape()));
+    msgs.push(panic_msg(|| (&m * &m).size()));
+    msgs.push(panic_msg(|| (&m + m.transpose()).size()));
+    msgs.push(panic_msg(|| Tensor::from([("b", k)], vec![1.0; k]).scalar_product(&Tensor::from([("c", 2)], vec![1.0; 2]))));
+    msgs.push(panic_msg(|| m.get(2, k)));
+    msgs.push(panic_msg(|| m.range(0..1, 0..1).get(1, 1)));
+    msgs.push(panic_msg(|| {
+        let mut m2 = m.clone();
+        m2.insert_row(9, 0.0);
+        m2.size()
+    }));
+    msgs.push(panic_msg(|| {
+        let mut m2 = m.clone();
+        m2.remove_column(k + 3);
+        m2.size()
+    }));
+    msgs.push(panic_msg(|| m.clone().into_tensor("s", "s").map(|t| t.shape()).unwrap()));
+    // stacks / chains with incompatible sources
+    msgs.push(panic_msg(|| TensorStack::<f64, (_, _), 2>::from((&t, &u), (0, "s")).sources_ref().0.shape()));
+    msgs.push(panic_msg(|| TensorStack::<f64, (_, _), 2>::from((&t, &t), (7, "s")).sources_ref().0.shape()));
+    // differentiation
+    let (l1, l2) = (WengertList::new(), WengertList::new());
+    let (x, y) = (Record::variable(r.val(), &l1), Record::variable(r.val(), &l2));
+    msgs.push(panic_msg(|| (x + y).number));
+    msgs.push(panic_msg(|| (x * y).number));
+    msgs.push(panic_msg(|| Record::constant(1.0).derivatives().at(&x)));
+    let rt = RecordTensor::variables(&l1, Tensor::from([("r", 2)], r.vals(2)));
+    let ro = RecordTensor::variables(&l2, Tensor::from([("r", 2)], r.vals(2)));
+    msgs.push(panic_msg(|| (&rt + &ro).shape()));
+    msgs.push(panic_msg(|| (&rt + &RecordTensor::constants(Tensor::from([("r", 3)], r.vals(3)))).shape()));
+    // statistics
+    msgs.push(panic_msg(|| linear_algebra::mean::<_, f64>(Vec::<f64>::new().into_iter())));
+    msgs.push(panic_msg(|| MultivariateGaussian::new(Matrix::column(r.vals(3)), Matrix::from_fn((2, 2), |_| 1.0)).mean().size()));
+    for msg in &msgs {
+        h.dbg(msg);
+    }
+    h.u(msgs.iter().filter(|x| x.is_some()).count());
+}
+
+/// results computed AFTER failing calls whose panic was caught on this thread: same size, other sizes,
+/// every entry point that permutes / decomposes
+fn w_after_caught_panics(r: &mut Rng, h: &mut H) {
+    for n in 2..=4usize {
+        let at = ((r.next() % n as u64) as usize, (r.next() % n as u64) as usize);
+        h.dbg(&cross_tape_determinant(n, at, r.next()));
+        let m = spd(r, n);
+        h.dbg(&linear_algebra::determinant::<f64>(&m).map(f64::to_bits));
+        if let Some(i) = linear_algebra::inverse::<f64>(&m) {
+            h.fs(i.row_major_iter());
+        }
+        let e = Matrix::from_fn((n, n), |(i, j)| Rat::int(r.small() + if i == j { 7 } else { 0 }));
+        h.dbg(&linear_algebra::determinant::<Rat>(&e));
+        h.dbg(&linear_algebra::inverse::<Rat>(&e));
+        let t = m.clone().into_tensor("r", "c").unwrap();
+        h.dbg(&t.determinant().map(f64::to_bits));
+        h.dbg(&linear_algebra::cholesky_decomposition::<f64>(&m).map(|c| c.row_major_iter().map(f64::to_bits).collect::<Vec<_>>()));
+    }
+    // a failing tensor call, then the same call with valid input
+    let t = Tensor::from([("a", 2), ("b", 3)], r.vals(6));
+    h.dbg(&panic_msg(|| t.reverse(&["x", "y"]).shape()));
+    h.fs(t.reverse(&["a", "b"]).iter());
+    h.dbg(&panic_msg(|| (&t * &t).shape()));
+    h.fs((&t * &t.transpose(["b", "a"]).rename_owned(["b", "c"])).iter());
 }
